@@ -4,19 +4,7 @@
 //!   flv replay <ID> <file>
 //!   flv worker <ID> <tier> <seed> <chunk> <ncases> <outfile>      (internal)
 //!   flv child <kind> <file>                                       (internal)
-mod child;
-mod fscn;
-mod hist;
-mod hooks;
-mod kf;
-mod model;
-mod mr;
-mod observe;
-mod props;
-mod runner;
-mod spec;
-mod util;
-mod vtime;
+use flvlib::{hooks, props, runner, vtime};
 
 use runner::Tier;
 use std::path::Path;
